@@ -398,3 +398,59 @@ Proof.
       exists n, l. repeat split; auto. apply LI in L. destruct (PP3 n l L EO) as [_ [_ Z]]. congruence.
     + intros [n [l [EO [L [Hi Hx]]]]]. apply LI in L. destruct (PP3 n l L EO) as [_ [_ Z]]. congruence.
 Qed.
+
+(* ---- with fix C: an interface may be reported under a new ifindex without its deletion having been reported ---- *)
+Lemma on_iface_renum_view : forall cfg now name idx state s old, iface_is_ours (c_pol cfg) name = true ->
+  c_fixC cfg = true -> state <> IfNP -> Ln2i s name = Some old -> old <> idx ->
+  let s' := on_iface cfg now name idx state s in
+  Ln2i s' name = Some idx /\ (forall n, n <> name -> Ln2i s' n = Ln2i s n) /\
+  Li2n s' idx = Some name /\ Li2n s' old = None /\ (forall i, i <> idx -> i <> old -> Li2n s' i = Li2n s i) /\
+  List s' idx = Some state /\ List s' old = None /\ (forall i, i <> idx -> i <> old -> List s' i = List s i).
+Proof.
+  intros cfg now name idx state s old EO FC NS HO NE. cbv zeta. unfold on_iface. rewrite EO. cbn [negb].
+  match goal with |- context [recalc_all cfg ?ks ?s2] => destruct (recalc_all_proj cfg ks s2) as [_ [B [C [D _]]]]; rewrite B, C, D end.
+  destruct (on_iface_seen_all now idx s) as [_ [_ [O3 [O4 O5]]]].
+  assert (N.eqb old idx = false) as NB by (apply N.eqb_neq; auto).
+  destruct state; try congruence; cbn; rewrite ?O3, ?O4, ?O5, HO, NB, FC; repeat split; intros;
+    first [apply (lookup_set_eq String.eqb string_eqb_spec) | apply (lookup_set_eq N.eqb N_eqb_spec)
+          | apply (lookup_set_neq String.eqb string_eqb_spec); congruence
+          | rewrite (lookup_set_neq N.eqb N_eqb_spec) by congruence; first [apply lookup_remove_eq | apply (lookup_remove_neq N.eqb N_eqb_spec); congruence]].
+Qed.
+
+Lemma renum_K0 : forall cfg now name idx state s old, K0 cfg s -> c_fixC cfg = true -> state <> IfNP -> idx <> 0 ->
+  (forall n, n <> name -> Ln2i s n <> Some idx) -> Ln2i s name = Some old -> old <> idx ->
+  K0 cfg (on_iface cfg now name idx state s).
+Proof.
+  intros cfg now name idx state s old HK FC NS NZ W1 HO NE.
+  pose proof HK as [A [B [C [D E]]]].
+  assert (iface_is_ours (c_pol cfg) name = true) as EO by eauto.
+  destruct (on_iface_renum_view cfg now name idx state s old EO FC NS HO NE) as [N1 [N2 [I1' [I1o [I2 [S1 [S1o S2]]]]]]].
+  assert (forall n i, n <> name -> Ln2i s n = Some i -> i <> idx /\ i <> old) as DIFF.
+  { intros n i Hn H. split; intro; subst.
+    - eapply W1; eauto.
+    - apply A in H. apply A in HO. congruence. }
+  repeat split.
+  - intros n i H. destruct (string_dec n name) as [->|Hn].
+    + rewrite N1 in H. injection H as <-. auto.
+    + rewrite N2 in H by auto. destruct (DIFF _ _ Hn H). rewrite I2; auto.
+  - intros i n H. destruct (N.eq_dec i idx) as [->|Hi].
+    + rewrite I1' in H. injection H as <-. auto.
+    + destruct (N.eq_dec i old) as [->|Ho]; [congruence|].
+      rewrite I2 in H by auto. pose proof (B _ _ H) as H'. destruct (string_dec n name) as [->|Hn]; [congruence|].
+      rewrite N2; auto.
+  - intros i x H. destruct (N.eq_dec i idx) as [->|Hi]; [eauto|].
+    destruct (N.eq_dec i old) as [->|Ho]; [congruence|]. rewrite S2 in H by auto. rewrite I2 by auto. eauto.
+  - intros n i H. destruct (string_dec n name) as [->|Hn]; auto. rewrite N2 in H by auto. eauto.
+  - intros n H. destruct (string_dec n name) as [->|Hn].
+    + rewrite N1 in H. congruence.
+    + rewrite N2 in H by auto. eapply E; eauto.
+Qed.
+
+Lemma renum_KI : forall cfg now name idx state s old, KI cfg s -> c_fixC cfg = true -> state <> IfNP -> idx <> 0 ->
+  (forall n, n <> name -> Ln2i s n <> Some idx) -> Ln2i s name = Some old -> old <> idx ->
+  KI cfg (on_iface cfg now name idx state s).
+Proof.
+  intros cfg now name idx state s old [HK HI] FC NS NZ W1 HO NE. split; [eapply renum_K0; eauto|].
+  apply on_iface_I1; auto; [eapply K0_wf_ifaces; eauto|].
+  unfold wf_event. destruct state; try congruence; auto.
+Qed.
